@@ -1150,6 +1150,10 @@ func (n *CustomNode) Exec(ctx context.Context, prepResult any) (any, error) {
 // Post implements Node.Post by calling the custom postFunc if provided
 func (n *CustomNode) Post(ctx context.Context, shared *SharedStore, prepResult, execResult any) (Action, error) {
 	if n.postFunc != nil {
+		// An error Result returned by Exec is handed over as is, not wrapped a second time
+		if r, ok := execResult.(Result); ok && r.IsError() {
+			return n.postFunc(ctx, shared, NewResult(prepResult), r)
+		}
 		return n.postFunc(ctx, shared, NewResult(prepResult), NewResult(execResult))
 	}
 	return n.BaseNode.Post(ctx, shared, prepResult, execResult)
@@ -1377,6 +1381,10 @@ func WithPostFuncAny(fn func(context.Context, *SharedStore, any, any) (Action, e
 	return &customNodeOption{
 		f: func(n *CustomNode) {
 			n.postFunc = func(ctx context.Context, shared *SharedStore, prepResult, execResult Result) (Action, error) {
+				if execResult.IsError() {
+					// keep the error state visible: pass the error Result itself
+					return fn(ctx, shared, prepResult.Value(), execResult)
+				}
 				return fn(ctx, shared, prepResult.Value(), execResult.Value())
 			}
 		},
